@@ -316,6 +316,10 @@ PROPS = {
             [{"scen": "exc", "env": {"threads": 0, "nolib": 1}, "runs": 2500 if tier == "quick" else 40_000, "configs": [c], "first": 30_000_000, "timeout": 30,
               "differential": True, "diff_keys": ["verdict", "hash"]} for c in (["plain", "ndebug-o2", "nocache-o2", "ngc-o2", "o3"] if tier == "quick" else
               ["plain", "o0", "o2", "o3", "ndebug-o0", "ndebug-o2", "ndebug-o3", "nocache-o0", "nocache-o2", "nocache-o3", "ngc-o0", "ngc-o2", "ngc-o3"])] +
+            # type-class dispatch histories (lookups, cooling, types deleted / replaced / redefined in place): the method cache is the one
+            # piece of state that only some configurations have
+            [{"scen": "dispatch", "env": {}, "runs": 300 if tier == "quick" else 6000, "configs": [c], "first": 90_000_000, "timeout": 90,
+              "differential": True, "diff_keys": ["verdict"]} for c in ["plain", "nocache-o2", "ndebug-o2"]] +
             # collector-dependent programs (roots on the stack, in root holders and in thread-local storage; collections): every
             # configuration that has a collector must reach the same verdict from the reference oracles
             [{"scen": "heap", "env": {"focus": 1, "avoid_kf": AVOID_KF_HEAP}, "runs": 800 if tier == "quick" else 20_000, "configs": [c], "first": 70_000_000, "chunk": 25,
